@@ -25,7 +25,7 @@ The property to break (text also in {d}/property.txt):
 
 {text}
 
-Task: make ONE small, realistic source change (the kind of slip a developer could make in a refactoring, a feature addition or an "optimisation") to the non-test Go code under {wt} that BREAKS this property while the project still compiles and the existing test suite still passes. The breakage must need something specific to manifest (an unusual input, a particular configuration or combination of options, a multi-step sequence, a particular interleaving or timing, or two cooperating sites that each look fine alone) — NOT something ordinary use would expose at once.
+Task: make ONE small, realistic source change (the kind of slip a developer could make in a refactoring, a feature addition or an "optimisation") to the non-test Go code under {wt} that BREAKS this property while the project still compiles and the existing test suite still passes. The breakage must need something specific to manifest (an unusual input, a particular configuration or combination of options, a multi-step sequence, a particular interleaving or timing, or two cooperating sites that each look fine alone) — NOT something ordinary use would expose at once. The breakage must be reachable with inputs, command lines, configurations and protocol messages that are already valid for the unchanged tree: do not make it depend on a new configuration key, flag or command that only exists with your change.
 
 Earlier changes for this property already exist; yours must be in a DIFFERENT place (a different function, preferably a different file) and of a different kind than each of them:
 {chr(10).join(prevs)}
